@@ -51,7 +51,7 @@ stop_watch Message::_codec_timings(Message::sw__max);
 unsigned MessageBase::_tabsize = defaults::tabsize;
 
 //-------------------------------------------------------------------------------------------------
-unsigned MessageBase::extract_header(const f8String& from, char *len, char *mtype)
+unsigned MessageBase::extract_header(const f8String& from, char (&len)[MAX_MSGTYPE_FIELD_LEN], char (&mtype)[MAX_MSGTYPE_FIELD_LEN])
 {
 	const char *dptr(from.data());
 	const unsigned flen(static_cast<unsigned>(from.size()));
